@@ -83,8 +83,8 @@ PStep(p, t, i) ==
     [] arm = "Heart" -> ArmHeart(p, c)
     [] OTHER -> p                                  \* StartIgnored, Other: `continue`
 
-RECURSIVE PRun(_,_,_)
-PRun(p, t, i) == IF i > Len(t) THEN p ELSE PRun(PStep(p, t, i), t, i+1)
+\* the main loop over the characters (a strict left fold: linear for TLC on long texts)
+PRun(p, t) == FoldLeft(LAMBDA acc, i : PStep(acc, t, i), p, [i \in 1 .. Len(t) |-> i])
 \* the command list parse.rs returns for text t
-Parse(t) == Flush(PRun(PInit, t, 1))
+Parse(t) == Flush(PRun(PInit, t))
 =============================================================================
